@@ -39,7 +39,9 @@ async def run_history(root, rnd, scripted=False):
     snaps = []       # (name, {abs path: bytes}) oldest first
     # scripted history: paths that are present / absent / present again (the version of the NEWEST snapshot containing
     # the path wins, however many snapshots without it lie in between), incl. a newer version that is a prefix of an older one
-    script = [{'a.txt': 200, 'b.bin': 128, 'sub/c.txt': 70}, {'a.txt': 10}, {'a.txt': 33, 'b.bin': 64}, {'sub/d': 5}, {'sub/c.txt': 9, 'a.txt': 1}]
+    # ... and a snapshot of an EMPTY tree with an EMPTY note (a count of 0 is "0" and an empty note is empty - not the placeholder)
+    script = [{'a.txt': 200, 'b.bin': 128, 'sub/c.txt': 70}, {'a.txt': 10}, {'a.txt': 33, 'b.bin': 64}, {'sub/d': 5}, {'sub/c.txt': 9, 'a.txt': 1}, {}]
+    notes = {}
     for i in range(len(script) if scripted else rnd.randint(3, 5)):
         if scripted:
             base = lib.content(4242, 400)
@@ -50,7 +52,7 @@ async def run_history(root, rnd, scripted=False):
                 current[n] = lib.content(rnd.randint(0, 10 ** 6), rnd.choice([0, 5, 64, 150, 1200]))
             elif roll < 0.5:
                 current.pop(n, None)
-        if not current or all(len(v) == 0 for v in current.values()):
+        if not scripted and (not current or all(len(v) == 0 for v in current.values())):
             current['a.txt'] = lib.content(i, 33)
         shutil.rmtree(src)
         src.mkdir()
@@ -58,7 +60,8 @@ async def run_history(root, rnd, scripted=False):
             (src / n).parent.mkdir(parents=True, exist_ok=True)
             (src / n).write_bytes(v)
         with lib.quiet():
-            s = await r.snapshot(paths=[src], note=f'note {i}' if i % 2 else None)
+            notes[i] = (f'note {i}' if i % 2 else None) if not (scripted and not current) else ''
+            s = await r.snapshot(paths=[src], note=notes[i])
         snaps.append((s.name, {str((src / n).resolve()): v for n, v in current.items()}))
     snap_filters = [None, '^' + snaps[-1][0] + '$', '^' + snaps[0][0] + '$', '|'.join(s[0][:12] for s in snaps[:2]), 'zzzz',
                     snaps[-1][0][:16].upper() if snaps[-1][0][:16].upper() != snaps[-1][0][:16] else 'Z']
@@ -89,7 +92,7 @@ async def run_history(root, rnd, scripted=False):
     with lib.quiet() as (o, e):
         await r.list_snapshots(columns=[SC.NAME, SC.FILE_COUNT, SC.SIZE, SC.NOTE], header=False)
         rows = [l.split('\t') for l in o.getvalue().splitlines()]
-    want_rows = [[n, str(len(f)), bytes_to_human(sum(len(v) for v in f.values())), (f'note {i}' if i % 2 else '--')]
+    want_rows = [[n, str(len(f)), bytes_to_human(sum(len(v) for v in f.values())), ('--' if notes[i] is None else notes[i])]
                  for i, (n, f) in enumerate(snaps)][::-1]
     got_rows = [[c.strip() for c in row] for row in rows]
     if got_rows != want_rows:
